@@ -2,21 +2,28 @@
 //!
 //! Requests (answers are produced by the REAL code on real files in a temp dir):
 //!   SHARDS <jsonl|csv|csvh> <total> <per>        T<total> R<ranges> P<split sizes> S<seq len> Q<par len> V<vec len>
-//!   SHARDS parquet <g1,g2,..|-> <per>            (row-group sizes of the fixture file)
-//!   PARWRITE <jsonl|csv|csvh> <n> <shards|none> auto=<a> via=<fn|pc>
+//!   SHARDS parquet <g1,g2,..|-> <per>            (row-group sizes of a fixture written by the harness's own ArrowWriter)
+//!   SHARDS parquetw <n> <per>                    (file written by the crate's write_parquet_vec)
+//!   PARWRITE <jsonl|csv|csvh> <n> <shards|none> auto=<a> via=<fn|pc> hw=<k>
 //!                                                OK B<idx:start-end,..> W<H|id,..> | PANIC | ERR
 //!   JSONLRD <hex file bytes> <per>               T.. R.. SEQ <OK ids|ERR> PAR <OK a|b|PANIC> VEC <OK ids|ERR>
 //!   GLOB <path:count,..>                         F<file order> N<records> I<file idx per record>
+//!   (c09_env.rs) PQBAD, PARFS, CSVRD, WRJSONL, RDHELPER, MKDIR and the ORACLE-ONLY environment cases
 //!
 //! Oracles (independent of the Lean model): read-back == written (bit-exact floats), in order;
 //! every streamed view (split concat, collect_seq, collect_par with several partition counts)
 //! == the whole read; the parallel-written file is byte-identical to the sequentially written
 //! one and reads back == written; the real shard ranges tile `[0,total)`; glob read == the
 //! concatenation of the per-file reads in component-wise sorted path order.
+//!
+//! Run-quality rule (no false alarms): a failure of the harness's OWN fixture I/O (temp dir full / read-only /
+//! vanished) is never an oracle failure: it is counted (`env:*`), noted in the evidence, and the case is skipped.
+//! A failure of a REAL writer is an oracle failure only if a probe write into the same directory still works.
 
+use crate::c09_env as envc;
 use crate::ctx::{Ctx, guarded, hex};
 use ironbeam::io::csv::{CsvVecOps, build_csv_shards, verif_split_ranges};
-use ironbeam::io::glob::expand_glob;
+use ironbeam::io::glob::{expand_glob, expand_glob_required};
 use ironbeam::io::jsonl::{JsonlVecOps, build_jsonl_shards, write_jsonl_vec};
 use ironbeam::io::parquet::{ParquetVecOps, build_parquet_shards, read_parquet_row_group_range};
 use ironbeam::{
@@ -24,33 +31,140 @@ use ironbeam::{
     read_jsonl_streaming, read_jsonl_vec, read_parquet_streaming, read_parquet_vec, write_csv_par,
     write_csv_vec, write_jsonl_par, write_parquet_vec,
 };
+use serde::de::DeserializeOwned;
 use serde::{Deserialize, Serialize};
 use std::path::{Path, PathBuf};
 use std::sync::{Arc, Mutex};
 
-#[derive(Clone, Debug, PartialEq, Serialize, Deserialize)]
-pub struct Rec {
-    id: u64,
-    s: String,
-    i: i64,
-    f: f64,
+// ---------------------------------------------------------------- record types
+
+/// A record shape the generic cases run on. Four shapes rotate through every block: the numeric-first record of
+/// the earlier rounds, a string-first/string-last one, one with `Option`s and `u64` extremes, a single string column.
+pub trait RecT: Clone + std::fmt::Debug + Serialize + DeserializeOwned + Send + Sync + 'static {
+    const TAG: &'static str;
+    /// `csv`: the record will (also) be written as CSV — `Some("")` is not generated then (CSV has no null that
+    /// differs from the empty string; outside the property's quantifier, counted as `gen:csv-option-some-empty-avoided`)
+    fn make(cx: &mut Ctx, id: u64, plain: bool, csv: bool) -> Self;
+    fn id(&self) -> u64;
+    fn set_id(&mut self, id: u64);
+    /// bit-exact equality (`-0.0 != 0.0`)
+    fn eq_bits(&self, o: &Self) -> bool;
+    fn header() -> Vec<&'static str>;
+    /// the id of a raw CSV row (all cells as strings)
+    fn id_of_cells(cells: &[String]) -> Option<u64>;
 }
 
-/// bit-exact record equality (`-0.0 != 0.0`)
-fn same(a: &[Rec], b: &[Rec]) -> bool {
-    a.len() == b.len()
-        && a.iter().zip(b).all(|(x, y)| x.id == y.id && x.s == y.s && x.i == y.i && x.f.to_bits() == y.f.to_bits())
+#[derive(Clone, Debug, PartialEq, Serialize, Deserialize)]
+pub struct Rec {
+    pub id: u64,
+    pub s: String,
+    pub i: i64,
+    pub f: f64,
+}
+impl RecT for Rec {
+    const TAG: &'static str = "num-first";
+    fn make(cx: &mut Ctx, id: u64, plain: bool, _csv: bool) -> Self {
+        Rec { id, s: if plain { format!("r{id}") } else { gen_string(cx) }, i: gen_i64(cx), f: gen_f64(cx) }
+    }
+    fn id(&self) -> u64 { self.id }
+    fn set_id(&mut self, id: u64) { self.id = id; }
+    fn eq_bits(&self, y: &Self) -> bool { self.id == y.id && self.s == y.s && self.i == y.i && self.f.to_bits() == y.f.to_bits() }
+    fn header() -> Vec<&'static str> { vec!["id", "s", "i", "f"] }
+    fn id_of_cells(c: &[String]) -> Option<u64> { c.first()?.parse().ok() }
+}
+
+/// string first AND last column, a bool in between
+#[derive(Clone, Debug, PartialEq, Serialize, Deserialize)]
+pub struct RecS {
+    pub s: String,
+    pub id: u64,
+    pub b: bool,
+    pub t: String,
+}
+impl RecT for RecS {
+    const TAG: &'static str = "str-first";
+    fn make(cx: &mut Ctx, id: u64, plain: bool, _csv: bool) -> Self {
+        RecS { s: if plain { format!("r{id}") } else { gen_string(cx) }, id, b: cx.rng.chance(1, 2), t: if plain { String::new() } else { gen_string(cx) } }
+    }
+    fn id(&self) -> u64 { self.id }
+    fn set_id(&mut self, id: u64) { self.id = id; }
+    fn eq_bits(&self, y: &Self) -> bool { self == y }
+    fn header() -> Vec<&'static str> { vec!["s", "id", "b", "t"] }
+    fn id_of_cells(c: &[String]) -> Option<u64> { c.get(1)?.parse().ok() }
+}
+
+/// nullable columns and the full `u64` range
+#[derive(Clone, Debug, PartialEq, Serialize, Deserialize)]
+pub struct RecO {
+    pub id: u64,
+    pub o: Option<String>,
+    pub u: u64,
+    pub n: Option<i64>,
+}
+impl RecT for RecO {
+    const TAG: &'static str = "options";
+    fn make(cx: &mut Ctx, id: u64, plain: bool, csv: bool) -> Self {
+        let o = match cx.rng.below(3) {
+            0 => None,
+            _ => {
+                let s = if plain { format!("o{id}") } else { gen_string(cx) };
+                if csv && s.is_empty() {
+                    cx.count("gen:csv-option-some-empty-avoided");
+                    None
+                } else {
+                    Some(s)
+                }
+            }
+        };
+        let u = match cx.rng.below(6) {
+            0 => u64::MAX,
+            1 => i64::MAX as u64 + 1,
+            2 => 0,
+            3 => (1u64 << 53) + 1,
+            _ => cx.rng.next_u64() >> cx.rng.below(64),
+        };
+        RecO { id, o, u, n: if cx.rng.chance(1, 3) { None } else { Some(gen_i64(cx)) } }
+    }
+    fn id(&self) -> u64 { self.id }
+    fn set_id(&mut self, id: u64) { self.id = id; }
+    fn eq_bits(&self, y: &Self) -> bool { self == y }
+    fn header() -> Vec<&'static str> { vec!["id", "o", "u", "n"] }
+    fn id_of_cells(c: &[String]) -> Option<u64> { c.first()?.parse().ok() }
+}
+
+/// one string column only: `<payload>~<id>`
+#[derive(Clone, Debug, PartialEq, Serialize, Deserialize)]
+pub struct RecOnly {
+    pub s: String,
+}
+impl RecT for RecOnly {
+    const TAG: &'static str = "str-only";
+    fn make(cx: &mut Ctx, id: u64, plain: bool, _csv: bool) -> Self {
+        RecOnly { s: format!("{}~{id}", if plain { "r".to_string() } else { gen_string(cx) }) }
+    }
+    fn id(&self) -> u64 { self.s.rsplit('~').next().and_then(|x| x.parse().ok()).unwrap_or(u64::MAX) }
+    fn set_id(&mut self, id: u64) {
+        let k = self.s.rfind('~').unwrap_or(0);
+        self.s = format!("{}~{id}", &self.s[..k]);
+    }
+    fn eq_bits(&self, y: &Self) -> bool { self == y }
+    fn header() -> Vec<&'static str> { vec!["s"] }
+    fn id_of_cells(c: &[String]) -> Option<u64> { c.first()?.rsplit('~').next()?.parse().ok() }
+}
+
+pub fn same<R: RecT>(a: &[R], b: &[R]) -> bool {
+    a.len() == b.len() && a.iter().zip(b).all(|(x, y)| x.eq_bits(y))
 }
 
 #[derive(Clone, Copy, PartialEq, Eq, Debug)]
-enum Fmt {
+pub enum Fmt {
     Jsonl,
     Csv,
     CsvH,
     Parquet,
 }
 impl Fmt {
-    fn name(self) -> &'static str {
+    pub fn name(self) -> &'static str {
         match self {
             Fmt::Jsonl => "jsonl",
             Fmt::Csv => "csv",
@@ -58,15 +172,18 @@ impl Fmt {
             Fmt::Parquet => "parquet",
         }
     }
-    fn ext(self) -> &'static str {
+    pub fn ext(self) -> &'static str {
         match self {
             Fmt::Jsonl => "jsonl",
             Fmt::Csv | Fmt::CsvH => "csv",
             Fmt::Parquet => "parquet",
         }
     }
-    fn hdr(self) -> bool {
+    pub fn hdr(self) -> bool {
         self == Fmt::CsvH
+    }
+    pub fn is_csv(self) -> bool {
+        matches!(self, Fmt::Csv | Fmt::CsvH)
     }
 }
 
@@ -75,10 +192,10 @@ impl Fmt {
 const PIECES: &[&str] = &[
     "", "a", "word", " ", "  ", "\t", ",", ";", "|", "\"", "\"\"", "'", "\\", "\\n", "\n", "\r", "\r\n", "\n\n",
     "é", "ß", "日本語", "😀", "\u{2028}", "\u{a0}", "\u{85}", "\u{feff}", "null", "true", "123", "-1.5", "1e5", "{", "}", "[",
-    "]", ":", "#", "id", "s,i", "a,b", "x\"y", ", ", " ,", "\u{0}", "\u{1}", "\u{7f}",
+    "]", ":", "#", "id", "s,i", "a,b", "x\"y", ", ", " ,", "\u{0}", "\u{1}", "\u{7f}", "#c", "s", "~",
 ];
 
-fn gen_string(cx: &mut Ctx) -> String {
+pub fn gen_string(cx: &mut Ctx) -> String {
     let k = match cx.rng.below(10) {
         0 => 0,
         1..=4 => 1,
@@ -89,6 +206,13 @@ fn gen_string(cx: &mut Ctx) -> String {
     for _ in 0..k {
         s.push_str(*cx.rng.pick(PIECES));
     }
+    // rarely a long value: lines beyond one 8 KiB buffer
+    if cx.rng.chance(1, 400) {
+        let unit = if s.is_empty() { "long,\"x\" ".to_string() } else { s.clone() };
+        while s.len() < 9000 {
+            s.push_str(&unit);
+        }
+    }
     match cx.rng.below(8) {
         0 => format!(" {s}"),
         1 => format!("{s} "),
@@ -97,7 +221,7 @@ fn gen_string(cx: &mut Ctx) -> String {
     }
 }
 
-fn gen_i64(cx: &mut Ctx) -> i64 {
+pub fn gen_i64(cx: &mut Ctx) -> i64 {
     match cx.rng.below(8) {
         0 => i64::MIN,
         1 => i64::MAX,
@@ -113,7 +237,7 @@ fn gen_i64(cx: &mut Ctx) -> i64 {
 /// 17-significant-digit values, subnormals, extremes and signed zero. (Until the `fix:` that enables
 /// serde_json's `float_roundtrip`, values such as `4226558646762882.0` or `2^-43` came back 1 ULP off from a
 /// JSONL file; they are corpus cases now.)
-fn gen_f64(cx: &mut Ctx) -> f64 {
+pub fn gen_f64(cx: &mut Ctx) -> f64 {
     match cx.rng.below(14) {
         0 => 0.0,
         1 => -0.0,
@@ -136,33 +260,26 @@ fn gen_f64(cx: &mut Ctx) -> f64 {
     }
 }
 
-fn gen_recs(cx: &mut Ctx, n: usize) -> Vec<Rec> {
+pub fn gen_recs<R: RecT>(cx: &mut Ctx, n: usize, csv: bool) -> Vec<R> {
     // record classes: plain / adversarial strings
     let plain = cx.rng.chance(1, 4);
-    (0..n)
-        .map(|k| Rec {
-            id: k as u64,
-            s: if plain { format!("r{k}") } else { gen_string(cx) },
-            i: gen_i64(cx),
-            f: gen_f64(cx),
-        })
-        .collect()
+    (0..n).map(|k| R::make(cx, k as u64, plain, csv)).collect()
 }
 
 // ---------------------------------------------------------------- formatting
 
-fn join<T: ToString>(xs: impl IntoIterator<Item = T>, sep: &str) -> String {
+pub fn join<T: ToString>(xs: impl IntoIterator<Item = T>, sep: &str) -> String {
     let v: Vec<String> = xs.into_iter().map(|x| x.to_string()).collect();
     if v.is_empty() { "-".into() } else { v.join(sep) }
 }
-fn fmt_ranges<A: ToString + Copy, B: ToString + Copy>(rs: &[(A, B)]) -> String {
+pub fn fmt_ranges<A: ToString + Copy, B: ToString + Copy>(rs: &[(A, B)]) -> String {
     join(rs.iter().map(|(a, b)| format!("{}-{}", a.to_string(), b.to_string())), ",")
 }
-fn opt_shards(s: Option<usize>) -> String {
+pub fn opt_shards(s: Option<usize>) -> String {
     s.map_or("none".into(), |x| x.to_string())
 }
 
-fn tiles(rs: &[(u64, u64)], total: u64) -> bool {
+pub fn tiles(rs: &[(u64, u64)], total: u64) -> bool {
     let mut at = 0u64;
     for &(s, e) in rs {
         if s != at || e <= s {
@@ -173,41 +290,128 @@ fn tiles(rs: &[(u64, u64)], total: u64) -> bool {
     at == total
 }
 
-fn parts_to_vecs(parts: Vec<Partition>) -> Option<Vec<Vec<Rec>>> {
-    parts.into_iter().map(|p| p.downcast::<Vec<Rec>>().ok().map(|b| *b)).collect()
+fn parts_to_vecs<R: RecT>(parts: Vec<Partition>) -> Option<Vec<Vec<R>>> {
+    parts.into_iter().map(|p| p.downcast::<Vec<R>>().ok().map(|b| *b)).collect()
 }
 
-// ---------------------------------------------------------------- fixtures
+// ---------------------------------------------------------------- fixtures / environment
 
-struct Env {
-    dir: tempfile::TempDir,
-    k: u64,
-    auto_jsonl: usize,
-    auto_csv: usize,
-    log: Arc<Mutex<Vec<(&'static str, usize, usize, usize)>>>,
+pub struct Env {
+    /// keeps the directory alive; removed on drop
+    pub dir: tempfile::TempDir,
+    pub k: u64,
+    pub auto_jsonl: usize,
+    pub auto_csv: usize,
+    pub log: Arc<Mutex<Vec<(&'static str, usize, usize, usize)>>>,
+    /// the file system folds case / normalises Unicode: colliding fixture names are not generated
+    pub folds_names: bool,
+    env_noted: bool,
 }
 impl Env {
-    fn fresh(&mut self, ext: &str) -> PathBuf {
+    pub fn root(&self) -> &Path {
+        self.dir.path()
+    }
+    pub fn fresh(&mut self, ext: &str) -> PathBuf {
         self.k += 1;
         self.dir.path().join(format!("f{}.{ext}", self.k))
     }
-    fn take_log(&self, site: &str) -> Vec<(usize, usize, usize)> {
-        let mut g = self.log.lock().unwrap();
+    pub fn take_log(&self, site: &str) -> Vec<(usize, usize, usize)> {
+        let mut g = self.log.lock().unwrap_or_else(std::sync::PoisonError::into_inner);
         let mut v: Vec<(usize, usize, usize)> = g.iter().filter(|x| x.0 == site).map(|x| (x.1, x.2, x.3)).collect();
         g.clear();
         v.sort();
         v
     }
+    /// Is the temp dir still usable by PLAIN std I/O? (confirms that a failing real writer is the writer's fault)
+    pub fn healthy(&mut self) -> bool {
+        self.k += 1;
+        let p = self.dir.path().join(format!("probe{}.tmp", self.k));
+        let ok = std::fs::write(&p, b"probe").is_ok() && std::fs::read(&p).map(|b| b == b"probe").unwrap_or(false);
+        let _ = std::fs::remove_file(&p);
+        ok
+    }
+    /// result of the harness's OWN fixture I/O: an error is an environment problem, never an oracle failure
+    pub fn own<T, E: std::fmt::Display>(&mut self, cx: &mut Ctx, what: &str, r: Result<T, E>) -> Option<T> {
+        match r {
+            Ok(v) => Some(v),
+            Err(e) => {
+                cx.count("env:fixture-io-error");
+                if !self.env_noted {
+                    self.env_noted = true;
+                    cx.notes.push(format!("environment: the harness's own fixture I/O failed ({what}: {e}); such cases are skipped and counted under env:fixture-io-error, they are not oracle failures"));
+                }
+                None
+            }
+        }
+    }
+    /// a REAL writer failed while preparing a case: oracle failure only if the directory is still healthy
+    pub fn real_writer_failed(&mut self, cx: &mut Ctx, req: String, detail: String) {
+        if self.healthy() {
+            let i = cx.case(req, "WRITE-ERR".into(), false);
+            cx.oracle_fail(i, "seq-writer-failed", detail);
+        } else {
+            let _ = self.own::<(), _>(cx, "real writer and the probe write both failed", Err(detail));
+        }
+    }
+    pub fn wipe_files(&self) {
+        if let Ok(d) = std::fs::read_dir(self.dir.path()) {
+            for e in d.filter_map(Result::ok) {
+                if e.path().is_file() {
+                    let _ = std::fs::remove_file(e.path());
+                }
+            }
+        }
+    }
 }
 
-fn write_seq(fmt: Fmt, path: &Path, data: &Vec<Rec>) -> anyhow::Result<usize> {
+fn has_glob_meta(p: &Path) -> bool {
+    p.to_str().is_none_or(|s| s.contains(['*', '?', '[']))
+}
+
+/// A private directory whose path is valid UTF-8 and free of glob metacharacters (the path helpers treat any
+/// path containing `* ? [` as a pattern): `$TMPDIR` first, else `work/` below the current directory (relative).
+fn make_env(cx: &mut Ctx) -> Option<Env> {
+    let bases = [std::env::temp_dir(), PathBuf::from("work")];
+    for base in bases {
+        if has_glob_meta(&base) {
+            cx.notes.push(format!("environment: {} contains a glob metacharacter or is not UTF-8; not used as temp dir", base.display()));
+            continue;
+        }
+        let _ = std::fs::create_dir_all(&base);
+        let Ok(dir) = tempfile::Builder::new().prefix("c09-").tempdir_in(&base) else { continue };
+        if has_glob_meta(dir.path()) {
+            continue;
+        }
+        let log: Arc<Mutex<Vec<(&'static str, usize, usize, usize)>>> = Arc::new(Mutex::new(vec![]));
+        let mut env = Env { dir, k: 0, auto_jsonl: 0, auto_csv: 0, log, folds_names: false, env_noted: false };
+        if !env.healthy() || std::fs::create_dir_all(env.root().join("probe-dir/sub")).is_err() {
+            continue;
+        }
+        let _ = std::fs::remove_dir_all(env.root().join("probe-dir"));
+        // case folding / Unicode normalisation probe
+        let (a, b) = (env.root().join("probe-a"), env.root().join("probe-A"));
+        let (c, d) = (env.root().join("probe-\u{e9}"), env.root().join("probe-e\u{301}"));
+        let _ = std::fs::write(&a, b"1");
+        let _ = std::fs::write(&c, b"1");
+        env.folds_names = b.exists() || d.exists();
+        let _ = std::fs::remove_file(&a);
+        let _ = std::fs::remove_file(&c);
+        if env.folds_names {
+            cx.notes.push("environment: the temp file system folds case or normalises Unicode; fixture names that would collide (A/a, B/b, é) are not generated".into());
+        }
+        return Some(env);
+    }
+    None
+}
+
+pub fn write_seq<R: RecT>(fmt: Fmt, path: &Path, data: &Vec<R>) -> anyhow::Result<usize> {
     match fmt {
         Fmt::Jsonl => write_jsonl_vec(path, data),
         Fmt::Csv | Fmt::CsvH => write_csv_vec(path, fmt.hdr(), data),
         Fmt::Parquet => write_parquet_vec(path, data),
     }
 }
-fn write_seq_pc(fmt: Fmt, path: &Path, data: &Vec<Rec>) -> anyhow::Result<usize> {
+pub fn write_seq_pc<R: RecT>(fmt: Fmt, path: &Path, data: &Vec<R>) -> anyhow::Result<usize> {
     let p = Pipeline::default();
     let pc = from_vec(&p, data.clone());
     match fmt {
@@ -216,7 +420,22 @@ fn write_seq_pc(fmt: Fmt, path: &Path, data: &Vec<Rec>) -> anyhow::Result<usize>
         Fmt::Parquet => pc.write_parquet(path),
     }
 }
-fn read_whole(fmt: Fmt, path: &Path) -> anyhow::Result<Vec<Rec>> {
+pub fn write_par<R: RecT>(fmt: Fmt, path: &Path, data: &Vec<R>, shards: Option<usize>, via_pc: bool) -> anyhow::Result<usize> {
+    if via_pc {
+        let p = Pipeline::default();
+        let pc = from_vec(&p, data.clone());
+        match fmt {
+            Fmt::Jsonl => pc.write_jsonl_par(path, shards),
+            _ => pc.write_csv_par(path, shards, fmt.hdr()),
+        }
+    } else {
+        match fmt {
+            Fmt::Jsonl => write_jsonl_par(path, data, shards),
+            _ => write_csv_par(path, data, shards, fmt.hdr()),
+        }
+    }
+}
+pub fn read_whole<R: RecT>(fmt: Fmt, path: &Path) -> anyhow::Result<Vec<R>> {
     match fmt {
         Fmt::Jsonl => read_jsonl_vec(path),
         Fmt::Csv | Fmt::CsvH => read_csv_vec(path, fmt.hdr()),
@@ -224,18 +443,18 @@ fn read_whole(fmt: Fmt, path: &Path) -> anyhow::Result<Vec<Rec>> {
     }
 }
 
-/// parquet fixture with the given row-group sizes (one `flush()` per group)
-fn write_parquet_groups(path: &Path, data: &[Rec], sizes: &[usize]) -> anyhow::Result<()> {
+/// parquet fixture with the given row-group sizes (one `flush()` per group), written by the harness's own ArrowWriter
+pub fn write_parquet_groups<R: Serialize + DeserializeOwned + Clone>(path: &Path, data: &[R], sizes: &[usize]) -> anyhow::Result<()> {
     use arrow::datatypes::FieldRef;
     use parquet::arrow::arrow_writer::ArrowWriter;
     use serde_arrow::schema::{SchemaLike, TracingOptions};
-    let fields = Vec::<FieldRef>::from_type::<Rec>(TracingOptions::default())?;
-    let empty: Vec<Rec> = vec![];
+    let fields = Vec::<FieldRef>::from_type::<R>(TracingOptions::default())?;
+    let empty: Vec<R> = vec![];
     let schema = serde_arrow::to_record_batch(&fields, &empty)?.schema();
     let mut w = ArrowWriter::try_new(std::fs::File::create(path)?, schema, None)?;
     let mut at = 0usize;
     for &sz in sizes {
-        let chunk: Vec<Rec> = data[at..at + sz].to_vec();
+        let chunk: Vec<R> = data[at..at + sz].to_vec();
         at += sz;
         let batch = serde_arrow::to_record_batch(&fields, &chunk)?;
         w.write(&batch)?;
@@ -245,25 +464,77 @@ fn write_parquet_groups(path: &Path, data: &[Rec], sizes: &[usize]) -> anyhow::R
     Ok(())
 }
 
+/// `csv-first-field-bom`: the ONLY difference between what was read and what was written is that the first field
+/// of the FIRST record of a header-less CSV file lost a leading U+FEFF (csv-core strips a UTF-8 BOM at the start
+/// of the input). Everything else about the two vectors must be identical.
+fn only_leading_bom_lost<R: RecT>(fmt: Fmt, got: &[R], want: &[R]) -> bool {
+    if fmt != Fmt::Csv || got.len() != want.len() || got.is_empty() || !same(&got[1..], &want[1..]) {
+        return false;
+    }
+    let (Ok(g), Ok(w)) = (serde_json::to_value(&got[0]), serde_json::to_value(&want[0])) else { return false };
+    let (Some(g), Some(w)) = (g.as_object(), w.as_object()) else { return false };
+    let first = R::header()[0];
+    g.iter().all(|(k, v)| {
+        let wv = &w[k];
+        if k == first {
+            match (v.as_str(), wv.as_str()) {
+                (Some(a), Some(b)) => b.strip_prefix('\u{feff}') == Some(a),
+                _ => false,
+            }
+        } else {
+            v == wv
+        }
+    })
+}
+
+/// signature for "read back differs from written"
+pub fn diff_sig<R: RecT>(fmt: Fmt, got: &[R], want: &[R], plain: &'static str) -> &'static str {
+    if only_leading_bom_lost(fmt, got, want) { "csv-headerless-first-field-leading-bom-stripped" } else { plain }
+}
+
 // ---------------------------------------------------------------- SHARDS: streamed == whole
 
 /// Streams `path` (already written, holding `data`) with shard size `per`; emits one SHARDS case.
-fn stream_case(cx: &mut Ctx, fmt: Fmt, path: &Path, data: &Vec<Rec>, per: usize, groups: Option<&[usize]>) {
+/// `groups`: row-group sizes of a Parquet file (`by_crate`: written by `write_parquet_vec`).
+pub fn stream_case<R: RecT>(cx: &mut Ctx, fmt: Fmt, path: &Path, data: &Vec<R>, per: usize, groups: Option<&[usize]>, by_crate: bool) {
+    stream_case_m(cx, fmt, path, data, per, groups, by_crate, true);
+}
+
+/// `model = false`: oracle only (large files: the theorems cover every size, the model is not asked to evaluate them)
+#[allow(clippy::too_many_arguments)]
+pub fn stream_case_m<R: RecT>(cx: &mut Ctx, fmt: Fmt, path: &Path, data: &Vec<R>, per: usize, groups: Option<&[usize]>, by_crate: bool, model: bool) {
     let mut fails: Vec<(&'static str, String)> = vec![];
     // whole read
-    let whole = read_whole(fmt, path);
+    let whole = guarded(|| read_whole::<R>(fmt, path));
     let v_str = match &whole {
-        Ok(v) => {
+        Ok(Ok(v)) => {
             if !same(v, data) {
-                fails.push(("roundtrip-differs", format!("read_{}_vec returned {} records, first difference at {:?}", fmt.name(), v.len(), first_diff(v, data))));
+                fails.push((diff_sig(fmt, v, data, "roundtrip-differs"), format!("read_{}_vec returned {} records, first difference at {:?}", fmt.name(), v.len(), first_diff(v, data))));
             }
             ids_or_len(v)
         }
-        Err(e) => {
+        Ok(Err(e)) => {
             fails.push(("roundtrip-read-error", format!("{e:#}")));
             "ERR".into()
         }
+        Err(m) => {
+            fails.push(("roundtrip-read-panics", m.clone()));
+            "PANIC".into()
+        }
     };
+    // the single-file branch of the path helpers (`read_jsonl` / `read_csv`) must be the whole read
+    if fmt != Fmt::Parquet {
+        let p = Pipeline::default();
+        let r = guarded(|| match fmt {
+            Fmt::Jsonl => read_jsonl::<R>(&p, path).and_then(|pc| pc.collect_seq()),
+            _ => read_csv::<R>(&p, path, fmt.hdr()).and_then(|pc| pc.collect_seq()),
+        });
+        match (&r, &whole) {
+            (Ok(Ok(h)), Ok(Ok(v))) if same(h, v) => {}
+            (Ok(Err(_)), Ok(Err(_))) => {}
+            _ => fails.push(("helper-literal-read-differs-from-vec-read", format!("read_{}(path) = {:?} records", fmt.ext(), r.as_ref().map(|x| x.as_ref().map(Vec::len).map_err(|e| format!("{e:#}")))))),
+        }
+    }
     // shard metadata + VecOps::split / clone_any, directly
     type Meta = (u64, String, bool, Option<Vec<Partition>>, Option<Partition>);
     let meta: Result<anyhow::Result<Meta>, String> = guarded(|| -> anyhow::Result<Meta> {
@@ -271,17 +542,17 @@ fn stream_case(cx: &mut Ctx, fmt: Fmt, path: &Path, data: &Vec<Rec>, per: usize,
         Ok(match fmt {
             Fmt::Jsonl => {
                 let s = build_jsonl_shards(path, per)?;
-                let ops = JsonlVecOps::<Rec>::new();
+                let ops = JsonlVecOps::<R>::new();
                 (s.total_lines, fmt_ranges(&s.ranges), tiles(&s.ranges, s.total_lines), guarded(|| ops.split(&s, 7)).ok().flatten(), guarded(|| ops.clone_any(&s)).ok().flatten())
             }
             Fmt::Csv | Fmt::CsvH => {
                 let s = build_csv_shards(path, fmt.hdr(), per)?;
-                let ops = CsvVecOps::<Rec>::new();
+                let ops = CsvVecOps::<R>::new();
                 (s.total_rows, fmt_ranges(&s.ranges), tiles(&s.ranges, s.total_rows), guarded(|| ops.split(&s, 7)).ok().flatten(), guarded(|| ops.clone_any(&s)).ok().flatten())
             }
             Fmt::Parquet => {
                 let s = build_parquet_shards(path, per)?;
-                let ops = ParquetVecOps::<Rec>::new();
+                let ops = ParquetVecOps::<R>::new();
                 let ng = groups.map_or(0, <[usize]>::len) as u64;
                 let gr: Vec<(u64, u64)> = s.group_ranges.iter().map(|&(a, b)| (a as u64, b as u64)).collect();
                 (s.total_rows, fmt_ranges(&s.group_ranges), tiles(&gr, ng), guarded(|| ops.split(&s, 7)).ok().flatten(), guarded(|| ops.clone_any(&s)).ok().flatten())
@@ -302,19 +573,19 @@ fn stream_case(cx: &mut Ctx, fmt: Fmt, path: &Path, data: &Vec<Rec>, per: usize,
     if !ranges_tile {
         fails.push(("shards-do-not-tile", format!("ranges {ranges_str} do not tile the file")));
     }
-    let p_str = match split.and_then(parts_to_vecs) {
+    let p_str = match split.and_then(parts_to_vecs::<R>) {
         Some(parts) => {
-            let flat: Vec<Rec> = parts.iter().flatten().cloned().collect();
+            let flat: Vec<R> = parts.iter().flatten().cloned().collect();
             if !same(&flat, data) {
-                fails.push(("streamed-differs-from-whole", format!("VecOps::split concat has {} records, first difference at {:?}", flat.len(), first_diff(&flat, data))));
+                fails.push((diff_sig(fmt, &flat, data, "streamed-differs-from-whole"), format!("VecOps::split concat has {} records, first difference at {:?}", flat.len(), first_diff(&flat, data))));
             }
             join(parts.iter().map(Vec::len), ",")
         }
         None => "NONE".into(),
     };
-    if let Some(c) = cloned.and_then(|p| p.downcast::<Vec<Rec>>().ok()) {
+    if let Some(c) = cloned.and_then(|p| p.downcast::<Vec<R>>().ok()) {
         if !same(&c, data) {
-            fails.push(("streamed-differs-from-whole", format!("VecOps::clone_any has {} records", c.len())));
+            fails.push((diff_sig(fmt, &c, data, "streamed-differs-from-whole"), format!("VecOps::clone_any has {} records", c.len())));
         }
     } else {
         fails.push(("streamed-differs-from-whole", "VecOps::clone_any returned None".into()));
@@ -325,18 +596,18 @@ fn stream_case(cx: &mut Ctx, fmt: Fmt, path: &Path, data: &Vec<Rec>, per: usize,
     let with_map = per % 2 == 1;
     let stream = |p: &Pipeline| {
         let pc = match fmt {
-            Fmt::Jsonl => read_jsonl_streaming::<Rec>(p, path, per),
-            Fmt::Csv | Fmt::CsvH => read_csv_streaming::<Rec>(p, path, fmt.hdr(), per),
-            Fmt::Parquet => read_parquet_streaming::<Rec>(p, path, per),
+            Fmt::Jsonl => read_jsonl_streaming::<R>(p, path, per),
+            Fmt::Csv | Fmt::CsvH => read_csv_streaming::<R>(p, path, fmt.hdr(), per),
+            Fmt::Parquet => read_parquet_streaming::<R>(p, path, per),
         };
-        pc.map(|pc| if with_map { pc.map(|r: &Rec| r.clone()) } else { pc })
+        pc.map(|pc| if with_map { pc.map(|r: &R| r.clone()) } else { pc })
     };
-    let show = |v: &Vec<Rec>| ids_or_len(v);
+    let show = |v: &Vec<R>| ids_or_len(v);
     let p = Pipeline::default();
     let s_str = match guarded(|| stream(&p).and_then(|pc| pc.collect_seq())) {
         Ok(Ok(v)) => {
             if !same(&v, data) {
-                fails.push(("streamed-differs-from-whole", format!("collect_seq has {} records, first difference at {:?}", v.len(), first_diff(&v, data))));
+                fails.push((diff_sig(fmt, &v, data, "streamed-differs-from-whole"), format!("collect_seq has {} records, first difference at {:?}", v.len(), first_diff(&v, data))));
             }
             show(&v)
         }
@@ -357,8 +628,8 @@ fn stream_case(cx: &mut Ctx, fmt: Fmt, path: &Path, data: &Vec<Rec>, per: usize,
     let pick = cx.rng.below(pcs.len());
     let mut q_str = String::new();
     for (j, pc_n) in pcs.iter().enumerate() {
-        // quick tier: two partition counts per case (None + one drawn); others: all of them
-        if cx.tier == crate::ctx::Tier::Quick && j != 0 && j != pick {
+        // quick tier (and every large file): two partition counts per case (None + one drawn); others: all of them
+        if (cx.tier == crate::ctx::Tier::Quick || n > 5000) && j != 0 && j != pick {
             continue;
         }
         let p = Pipeline::default();
@@ -366,7 +637,7 @@ fn stream_case(cx: &mut Ctx, fmt: Fmt, path: &Path, data: &Vec<Rec>, per: usize,
         let s = match r {
             Ok(Ok(v)) => {
                 if !same(&v, data) {
-                    fails.push(("streamed-differs-from-whole", format!("collect_par(partitions={pc_n:?}) has {} records, first difference at {:?}", v.len(), first_diff(&v, data))));
+                    fails.push((diff_sig(fmt, &v, data, "streamed-differs-from-whole"), format!("collect_par(partitions={pc_n:?}) has {} records, first difference at {:?}", v.len(), first_diff(&v, data))));
                 }
                 show(&v)
             }
@@ -386,115 +657,123 @@ fn stream_case(cx: &mut Ctx, fmt: Fmt, path: &Path, data: &Vec<Rec>, per: usize,
         }
     }
     let req = match (fmt, groups) {
+        (Fmt::Parquet, Some(_)) if by_crate => format!("SHARDS parquetw {} {per}", data.len()),
         (Fmt::Parquet, Some(g)) => format!("SHARDS parquet {} {per}", join(g.iter(), ",")),
         _ => format!("SHARDS {} {} {per}", fmt.name(), data.len()),
     };
     let nshards = ranges_str.matches('-').count();
-    let idx = cx.case(req, format!("T{total} R{ranges_str} P{p_str} S{s_str} Q{q_str} V{v_str}"), n >= 2 && ranges_str != "-");
+    let idx = if model {
+        cx.case(req, format!("T{total} R{ranges_str} P{p_str} S{s_str} Q{q_str} V{v_str}"), n >= 2 && ranges_str != "-")
+    } else {
+        cx.case(format!("ORACLE-ONLY big-stream {} n={n} per={per} shards={nshards} groups={}", fmt.name(), groups.map_or("-".to_string(), |g| join(g.iter(), ","))), "-".into(), true)
+    };
     cx.count(&format!("stream:{}", fmt.name()));
+    cx.count(&format!("stream:rec={}", R::TAG));
     cx.count(&format!("stream:shards={}", if ranges_str == "-" { "0".into() } else if nshards >= 8 { "8+".into() } else { nshards.to_string() }));
     cx.count(&format!("stream:per-vs-n:{}", if per == 0 { "0" } else if per < n { "<n" } else if per == n { "=n" } else { ">n" }));
+    // one signature per case is enough for attribution; keep them all for the detail
     for (sig, d) in fails {
         cx.oracle_fail(idx, sig, d);
     }
 }
 
-fn first_diff(a: &[Rec], b: &[Rec]) -> Option<(usize, Option<Rec>, Option<Rec>)> {
-    first_diff_idx(a, b).map(|k| (k, a.get(k).cloned(), b.get(k).cloned()))
-}
-fn first_diff_idx(a: &[Rec], b: &[Rec]) -> Option<usize> {
-    (0..a.len().max(b.len())).find(|&k| match (a.get(k), b.get(k)) {
-        (Some(x), Some(y)) => !same(std::slice::from_ref(x), std::slice::from_ref(y)),
-        _ => true,
-    })
+pub fn first_diff<R: RecT>(a: &[R], b: &[R]) -> Option<(usize, Option<R>, Option<R>)> {
+    (0..a.len().max(b.len()))
+        .find(|&k| match (a.get(k), b.get(k)) {
+            (Some(x), Some(y)) => !x.eq_bits(y),
+            _ => true,
+        })
+        .map(|k| (k, a.get(k).cloned(), b.get(k).cloned()))
 }
 /// length if the ids are 0..len in order, else `X`
-fn ids_or_len(v: &[Rec]) -> String {
-    if v.iter().enumerate().all(|(k, r)| r.id == k as u64) { v.len().to_string() } else { "X".into() }
+pub fn ids_or_len<R: RecT>(v: &[R]) -> String {
+    if v.iter().enumerate().all(|(k, r)| r.id() == k as u64) { v.len().to_string() } else { "X".into() }
 }
 
 /// writes `data` (sequential writer: free function or PCollection method) and streams it
-fn roundtrip_stream(cx: &mut Ctx, env: &mut Env, fmt: Fmt, data: &Vec<Rec>, per: usize) {
+fn roundtrip_stream<R: RecT>(cx: &mut Ctx, env: &mut Env, fmt: Fmt, data: &Vec<R>, per: usize) {
     // codec: the sequential writers / all readers pick the codec from the extension (C10 owns the
     // codec logic itself and the parallel writers' handling of compressed extensions)
     let codec = if fmt != Fmt::Parquet && cx.rng.chance(1, 3) { *cx.rng.pick(&["gz", "zst", "bz2", "xz"]) } else { "" };
     let path = if codec.is_empty() { env.fresh(fmt.ext()) } else { env.fresh(&format!("{}.{codec}", fmt.ext())) };
     cx.count(&format!("stream:codec={}", if codec.is_empty() { "none" } else { codec }));
     let via_pc = cx.rng.chance(1, 3);
-    let w = if via_pc { write_seq_pc(fmt, &path, data) } else { write_seq(fmt, &path, data) };
+    let w = guarded(|| if via_pc { write_seq_pc(fmt, &path, data) } else { write_seq(fmt, &path, data) });
     cx.count(if via_pc { "seqwrite:pcollection" } else { "seqwrite:vec" });
     match w {
-        Ok(k) if k == data.len() => {}
+        Ok(Ok(k)) if k == data.len() => {}
         other => {
-            let i = cx.case(format!("SHARDS {} {} {per}", fmt.name(), data.len()), "WRITE-ERR".into(), false);
-            cx.oracle_fail(i, "seq-writer-failed", format!("{other:?}"));
+            env.real_writer_failed(cx, format!("SHARDS {} {} {per}", fmt.name(), data.len()), format!("{:?}", other.map(|r| r.map_err(|e| format!("{e:#}")))));
             return;
         }
     }
     let groups: Vec<usize> = if data.is_empty() { vec![] } else { vec![data.len()] };
-    stream_case(cx, fmt, &path, data, per, if fmt == Fmt::Parquet { Some(&groups) } else { None });
+    stream_case(cx, fmt, &path, data, per, if fmt == Fmt::Parquet { Some(&groups) } else { None }, true);
     let _ = std::fs::remove_file(&path);
 }
 
-fn parquet_groups_case(cx: &mut Ctx, env: &mut Env, data: &Vec<Rec>, sizes: &[usize], per: usize) {
-    let path = env.fresh("parquet");
-    write_parquet_groups(&path, data, sizes).expect("parquet fixture");
-    // the fixture's real group structure (third-party writer) is what the request carries
-    // (read with the real code; if that itself misbehaves, fall back to the requested sizes so that the
-    // disagreement is attributed to the case below)
-    let real_sizes: Vec<usize> = guarded(|| {
-        let meta = build_parquet_shards(&path, 1).ok()?;
-        meta.group_ranges.iter().map(|&(a, b)| read_parquet_row_group_range::<Rec>(&meta, a, b).ok().map(|v| v.len())).collect::<Option<Vec<usize>>>()
+pub fn real_group_sizes<R: RecT>(path: &Path) -> Option<Vec<usize>> {
+    guarded(|| {
+        let meta = build_parquet_shards(path, 1).ok()?;
+        meta.group_ranges.iter().map(|&(a, b)| read_parquet_row_group_range::<R>(&meta, a, b).ok().map(|v| v.len())).collect::<Option<Vec<usize>>>()
     })
     .ok()
     .flatten()
-    .unwrap_or_else(|| sizes.to_vec());
+}
+
+fn parquet_groups_case<R: RecT>(cx: &mut Ctx, env: &mut Env, data: &Vec<R>, sizes: &[usize], per: usize) {
+    let path = env.fresh("parquet");
+    if env.own(cx, "parquet fixture", write_parquet_groups(&path, data, sizes)).is_none() {
+        return;
+    }
+    // the fixture's real group structure (third-party writer) is what the request carries
+    // (read with the real code; if that itself misbehaves, fall back to the requested sizes so that the
+    // disagreement is attributed to the case below)
+    let real_sizes: Vec<usize> = real_group_sizes::<R>(&path).unwrap_or_else(|| sizes.to_vec());
     if real_sizes != sizes {
         cx.count("parquet:fixture-groups-differ-from-requested");
     }
-    stream_case(cx, Fmt::Parquet, &path, data, per, Some(&real_sizes));
+    stream_case(cx, Fmt::Parquet, &path, data, per, Some(&real_sizes), false);
     let _ = std::fs::remove_file(&path);
 }
 
 // ---------------------------------------------------------------- PARWRITE
 
-fn raw_cells(path: &Path, fmt: Fmt) -> String {
+pub fn raw_cells<R: RecT>(path: &Path, fmt: Fmt) -> String {
     match fmt {
-        Fmt::Jsonl => match read_jsonl_vec::<Rec>(path) {
-            Ok(v) => join(v.iter().map(|r| r.id), ","),
+        Fmt::Jsonl => match read_jsonl_vec::<R>(path) {
+            Ok(v) => join(v.iter().map(|r| r.id()), ","),
             Err(_) => "UNREADABLE".into(),
         },
         _ => match read_csv_vec::<Vec<String>>(path, false) {
-            Ok(rows) => join(rows.iter().map(|r| if r.first().map(String::as_str) == Some("id") && r.get(1).map(String::as_str) == Some("s") { "H".to_string() } else { r.first().cloned().unwrap_or_default() }), ","),
+            Ok(rows) => {
+                let hdr: Vec<String> = R::header().iter().map(|s| s.to_string()).collect();
+                join(rows.iter().map(|r| if *r == hdr { "H".to_string() } else { R::id_of_cells(r).map_or("?".to_string(), |x| x.to_string()) }), ",")
+            }
             Err(_) => "UNREADABLE".into(),
         },
     }
 }
 
-fn parwrite_case(cx: &mut Ctx, env: &mut Env, fmt: Fmt, data: &Vec<Rec>, shards: Option<usize>, via_pc: bool) {
+fn parwrite_case<R: RecT>(cx: &mut Ctx, env: &mut Env, fmt: Fmt, data: &Vec<R>, shards: Option<usize>, via_pc: bool) {
     let n = data.len();
     let par = env.fresh(fmt.ext());
     let seq = env.fresh(fmt.ext());
     env.take_log("");
-    let r = guarded(|| {
-        if via_pc {
-            let p = Pipeline::default();
-            let pc = from_vec(&p, data.clone());
-            match fmt {
-                Fmt::Jsonl => pc.write_jsonl_par(&par, shards),
-                _ => pc.write_csv_par(&par, shards, fmt.hdr()),
-            }
-        } else {
-            match fmt {
-                Fmt::Jsonl => write_jsonl_par(&par, data, shards),
-                _ => write_csv_par(&par, data, shards, fmt.hdr()),
-            }
-        }
-    });
+    let r = guarded(|| write_par(fmt, &par, data, shards, via_pc));
     let site = if fmt == Fmt::Jsonl { "write_jsonl_par" } else { "write_csv_par" };
     let bounds = env.take_log(site);
+    // `None`: the default is re-read from num_cpus on every call; if this call did not use the count measured at
+    // start (affinity / cgroup change mid-run), re-measure instead of blaming the writer
+    if shards.is_none() && n > 0 && !via_pc && r.as_ref().is_ok_and(Result::is_ok) {
+        let auto = if fmt == Fmt::Jsonl { env.auto_jsonl } else { env.auto_csv };
+        if bounds.len() != auto.clamp(1, n) {
+            measure_auto(cx, env);
+            cx.count("env:auto-shard-count-remeasured");
+        }
+    }
     let auto = if fmt == Fmt::Jsonl { env.auto_jsonl } else { env.auto_csv };
-    let req = format!("PARWRITE {} {n} {} auto={auto} via={}", fmt.name(), opt_shards(shards), if via_pc { "pc" } else { "fn" });
+    let req = format!("PARWRITE {} {n} {} auto={auto} via={} hw={}", fmt.name(), opt_shards(shards), if via_pc { "pc" } else { "fn" }, env.auto_jsonl);
     let mut fails: Vec<(&'static str, String)> = vec![];
     let ans = match r {
         Err(m) => {
@@ -502,6 +781,10 @@ fn parwrite_case(cx: &mut Ctx, env: &mut Env, fmt: Fmt, data: &Vec<Rec>, shards:
             "PANIC".to_string()
         }
         Ok(Err(e)) => {
+            if !env.healthy() {
+                let _ = env.own::<(), _>(cx, "parallel writer and the probe write both failed", Err(format!("{e:#}")));
+                return;
+            }
             fails.push(("par-writer-errors", format!("{e:#}")));
             "ERR".to_string()
         }
@@ -509,29 +792,40 @@ fn parwrite_case(cx: &mut Ctx, env: &mut Env, fmt: Fmt, data: &Vec<Rec>, shards:
             if k != n {
                 fails.push(("par-writer-count", format!("returned {k}, wrote {n}")));
             }
-            write_seq(fmt, &seq, data).expect("sequential writer");
-            let a = std::fs::read(&par).unwrap_or_default();
-            let b = std::fs::read(&seq).unwrap_or_default();
+            match guarded(|| write_seq(fmt, &seq, data)) {
+                Ok(Ok(_)) => {}
+                other => {
+                    env.real_writer_failed(cx, req, format!("{:?}", other.map(|r| r.map_err(|e| format!("{e:#}")))));
+                    env.wipe_files();
+                    return;
+                }
+            }
+            let (Some(a), Some(b)) = (env.own(cx, "read parallel-written file", std::fs::read(&par)), env.own(cx, "read sequentially written file", std::fs::read(&seq))) else {
+                env.wipe_files();
+                return;
+            };
             if a != b {
                 fails.push(("par-file-differs-from-seq-file", format!("{} vs {} bytes", a.len(), b.len())));
             }
-            match read_whole(fmt, &par) {
-                Ok(v) if same(&v, data) => {}
-                Ok(v) => fails.push(("par-file-reads-back-differently", format!("{} records, first difference at {:?}", v.len(), first_diff(&v, data)))),
-                Err(e) => fails.push(("par-file-reads-back-differently", format!("{e:#}"))),
+            match guarded(|| read_whole::<R>(fmt, &par)) {
+                Ok(Ok(v)) if same(&v, data) => {}
+                Ok(Ok(v)) => fails.push((diff_sig(fmt, &v, data, "par-file-reads-back-differently"), format!("{} records, first difference at {:?}", v.len(), first_diff(&v, data)))),
+                Ok(Err(e)) => fails.push(("par-file-reads-back-differently", format!("{e:#}"))),
+                Err(m) => fails.push(("par-file-reads-back-differently", format!("panic: {m}"))),
             }
             // no part files may be left behind
             if fmt == Fmt::Jsonl {
-                let left = std::fs::read_dir(env.dir.path()).map(|d| d.filter_map(Result::ok).filter(|e| e.file_name().to_string_lossy().contains(".part")).count()).unwrap_or(0);
+                let left = std::fs::read_dir(env.root()).map(|d| d.filter_map(Result::ok).filter(|e| e.file_name().to_string_lossy().contains(".part")).count()).unwrap_or(0);
                 if left > 0 {
                     fails.push(("par-writer-leaves-part-files", format!("{left} part files")));
                 }
             }
-            format!("OK B{} W{}", join(bounds.iter().map(|(i, s, e)| format!("{i}:{s}-{e}")), ","), raw_cells(&par, fmt))
+            format!("OK B{} W{}", join(bounds.iter().map(|(i, s, e)| format!("{i}:{s}-{e}")), ","), raw_cells::<R>(&par, fmt))
         }
     };
     let idx = cx.case(req, ans, n >= 2 && shards.is_none_or(|s| s >= 2));
     cx.count(&format!("parwrite:{}:{}", fmt.name(), if via_pc { "pc" } else { "fn" }));
+    cx.count(&format!("parwrite:rec={}", R::TAG));
     cx.count(&format!("parwrite:shards-vs-n:{}", match shards { None => "none", Some(0) => "0", Some(s) if s < n => "<n", Some(s) if s == n => "=n", _ => ">n" }));
     if let Some(s) = shards {
         if s >= 1 && n % s.min(n.max(1)) != 0 {
@@ -542,58 +836,60 @@ fn parwrite_case(cx: &mut Ctx, env: &mut Env, fmt: Fmt, data: &Vec<Rec>, shards:
         cx.oracle_fail(idx, sig, d);
     }
     // clean up (also stale part files after a panic)
-    if let Ok(d) = std::fs::read_dir(env.dir.path()) {
-        for e in d.filter_map(Result::ok) {
-            if e.path().is_file() {
-                let _ = std::fs::remove_file(e.path());
-            }
-        }
-    }
+    env.wipe_files();
 }
 
 /// parallel writers under a compression extension: the file must read back (whole and streamed) exactly like
 /// the sequentially written one. Oracle only (the codec layer is modelled in C10).
-fn parwrite_codec_case(cx: &mut Ctx, env: &mut Env, fmt: Fmt, data: &Vec<Rec>, shards: Option<usize>, codec: &str, via_pc: bool) {
+fn parwrite_codec_case<R: RecT>(cx: &mut Ctx, env: &mut Env, fmt: Fmt, data: &Vec<R>, shards: Option<usize>, codec: &str, via_pc: bool) {
     let par = env.fresh(&format!("{}.{codec}", fmt.ext()));
     let seq = env.fresh(&format!("{}.{codec}", fmt.ext()));
-    let r = guarded(|| {
-        if via_pc {
-            let p = Pipeline::default();
-            let pc = from_vec(&p, data.clone());
-            match fmt { Fmt::Jsonl => pc.write_jsonl_par(&par, shards), _ => pc.write_csv_par(&par, shards, fmt.hdr()) }
-        } else {
-            match fmt { Fmt::Jsonl => write_jsonl_par(&par, data, shards), _ => write_csv_par(&par, data, shards, fmt.hdr()) }
-        }
-    });
+    let r = guarded(|| write_par(fmt, &par, data, shards, via_pc));
+    if matches!(&r, Ok(Err(_))) && !env.healthy() {
+        let _ = env.own::<(), _>(cx, "parallel writer (codec) and the probe write both failed", Err("write error"));
+        return;
+    }
     let idx = cx.case(format!("ORACLE-ONLY parwrite-codec {} n={} shards={} codec={codec} via={}", fmt.name(), data.len(), opt_shards(shards), if via_pc { "pc" } else { "fn" }), "-".into(), data.len() >= 2);
     cx.count(&format!("parwrite-codec:{}:{codec}", fmt.name()));
     match r {
         Err(m) => cx.oracle_fail(idx, "par-writer-panics", m),
         Ok(Err(e)) => cx.oracle_fail(idx, "par-writer-errors", format!("{e:#}")),
         Ok(Ok(_)) => {
-            write_seq(fmt, &seq, data).expect("sequential writer");
-            let a = guarded(|| read_whole(fmt, &par));
-            let b = guarded(|| read_whole(fmt, &seq));
+            let ws = guarded(|| write_seq(fmt, &seq, data));
+            if !matches!(ws, Ok(Ok(_))) {
+                if env.healthy() {
+                    cx.oracle_fail(idx, "seq-writer-failed", format!("{:?}", ws.map(|r| r.map_err(|e| format!("{e:#}")))));
+                } else {
+                    let _ = env.own::<(), _>(cx, "sequential writer (codec) and the probe write both failed", Err("write error"));
+                }
+                env.wipe_files();
+                return;
+            }
+            let a = guarded(|| read_whole::<R>(fmt, &par));
+            let b = guarded(|| read_whole::<R>(fmt, &seq));
             match (a, b) {
                 (Ok(Ok(x)), Ok(Ok(y))) if same(&x, &y) && same(&x, data) => {}
-                (Ok(Ok(x)), Ok(Ok(y))) => cx.oracle_fail(idx, "par-compressed-file-reads-back-differently", format!("parallel-written file: {} records, sequentially written: {}, expected {}", x.len(), y.len(), data.len())),
+                (Ok(Ok(x)), Ok(Ok(y))) => cx.oracle_fail(idx, if same(&x, &y) { diff_sig(fmt, &x, data, "par-compressed-file-reads-back-differently") } else { "par-compressed-file-reads-back-differently" }, format!("parallel-written file: {} records, sequentially written: {}, expected {}", x.len(), y.len(), data.len())),
                 (x, _) => cx.oracle_fail(idx, "par-compressed-file-reads-back-differently", format!("parallel-written file unreadable: {:?}", x.map(|r| r.map(|v| v.len()).map_err(|e| format!("{e:#}"))))),
             }
         }
     }
-    if let Ok(d) = std::fs::read_dir(env.dir.path()) {
-        for e in d.filter_map(Result::ok) { if e.path().is_file() { let _ = std::fs::remove_file(e.path()); } }
-    }
+    env.wipe_files();
 }
 
 // ---------------------------------------------------------------- JSONLRD (byte level, blank lines, malformed)
 
 fn jsonlrd_case(cx: &mut Ctx, env: &mut Env, bytes: &[u8], per: usize) {
     let path = env.fresh("jsonl");
-    std::fs::write(&path, bytes).unwrap();
+    if env.own(cx, "write JSONL bytes", std::fs::write(&path, bytes)).is_none() {
+        return;
+    }
+    let req = format!("JSONLRD {} {per}", if bytes.is_empty() { "-".into() } else { hex(bytes) });
     let Ok(Ok(shards)) = guarded(|| build_jsonl_shards(&path, per)) else {
-        let idx = cx.case(format!("JSONLRD {} {per}", if bytes.is_empty() { "-".into() } else { hex(bytes) }), "BUILD-FAILED".into(), false);
-        cx.oracle_fail(idx, "streamed-read-panics", "build_jsonl_shards failed on a readable file".into());
+        if env.healthy() && path.exists() {
+            let idx = cx.case(req, "BUILD-FAILED".into(), false);
+            cx.oracle_fail(idx, "streamed-read-panics", "build_jsonl_shards failed on a readable file".into());
+        }
         return;
     };
     let ops = JsonlVecOps::<i64>::new();
@@ -619,7 +915,6 @@ fn jsonlrd_case(cx: &mut Ctx, env: &mut Env, bytes: &[u8], per: usize) {
         Ok(v) => format!("OK {}", join(v.iter(), ",")),
         Err(_) => "ERR".into(),
     };
-    let req = format!("JSONLRD {} {per}", if bytes.is_empty() { "-".into() } else { hex(bytes) });
     let idx = cx.case(req, format!("T{} R{} SEQ {seq_s} PAR {par_s} VEC {vec_s}", shards.total_lines, fmt_ranges(&shards.ranges)), shards.ranges.len() >= 2);
     cx.count(if vec.is_ok() { "jsonlrd:wellformed" } else { "jsonlrd:malformed" });
     if !tiles(&shards.ranges, shards.total_lines) {
@@ -675,44 +970,65 @@ fn comp_cmp(a: &str, b: &str) -> std::cmp::Ordering {
     ca.cmp(&cb)
 }
 
-fn glob_case(cx: &mut Ctx, env: &mut Env, fmt: Fmt, names: &[(String, usize)], deep: bool) {
+fn glob_case<R: RecT>(cx: &mut Ctx, env: &mut Env, fmt: Fmt, names: &[(String, usize)], deep: bool) {
     env.k += 1;
-    let root = env.dir.path().join(format!("g{}", env.k));
-    std::fs::create_dir_all(&root).unwrap();
+    let root = env.root().join(format!("g{}", env.k));
+    if env.own(cx, "create glob fixture dir", std::fs::create_dir_all(&root)).is_none() {
+        return;
+    }
     let ext = fmt.ext();
-    let mut files: Vec<(String, Vec<Rec>)> = vec![];
+    let mut files: Vec<(String, Vec<R>)> = vec![];
     let mut next_id = 0u64;
     for (name, cnt) in names {
-        let mut recs = gen_recs(cx, *cnt);
+        let mut recs = gen_recs::<R>(cx, *cnt, fmt.is_csv());
         for r in &mut recs {
-            r.id = next_id;
+            r.set_id(next_id);
             next_id += 1;
         }
         let path = root.join(name);
-        std::fs::create_dir_all(path.parent().unwrap()).unwrap();
-        write_seq(fmt, &path, &recs).expect("write glob fixture");
+        if let Some(parent) = path.parent() {
+            if env.own(cx, "create glob fixture sub-directory", std::fs::create_dir_all(parent)).is_none() {
+                let _ = std::fs::remove_dir_all(&root);
+                return;
+            }
+        }
+        match guarded(|| write_seq(fmt, &path, &recs)) {
+            Ok(Ok(_)) => {}
+            other => {
+                env.real_writer_failed(cx, format!("GLOB fixture {name}"), format!("{:?}", other.map(|r| r.map_err(|e| format!("{e:#}")))));
+                let _ = std::fs::remove_dir_all(&root);
+                return;
+            }
+        }
         files.push((name.clone(), recs));
     }
     // decoys: other extension, and a directory whose name matches the pattern
-    std::fs::write(root.join("decoy.txt"), b"not data").unwrap();
-    std::fs::create_dir_all(root.join(format!("dir.{ext}"))).unwrap();
+    let _ = std::fs::write(root.join("decoy.txt"), b"not data");
+    let _ = std::fs::create_dir_all(root.join(format!("dir.{ext}")));
     let matched: Vec<usize> = (0..files.len()).filter(|&k| files[k].0.ends_with(&format!(".{ext}")) && (deep || !files[k].0.contains('/'))).collect();
     let pattern = if deep { format!("{}/**/*.{ext}", root.display()) } else { format!("{}/*.{ext}", root.display()) };
     // expected order: component-wise comparison of the relative paths, computed here
     let mut want_order = matched.clone();
     want_order.sort_by(|&a, &b| comp_cmp(&files[a].0, &files[b].0));
-    let want: Vec<Rec> = want_order.iter().flat_map(|&k| files[k].1.clone()).collect();
+    let want: Vec<R> = want_order.iter().flat_map(|&k| files[k].1.clone()).collect();
     let p = Pipeline::default();
     let got = guarded(|| match fmt {
-        Fmt::Jsonl => read_jsonl::<Rec>(&p, &pattern).and_then(|pc| pc.collect_seq()),
-        Fmt::Csv | Fmt::CsvH => read_csv::<Rec>(&p, &pattern, fmt.hdr()).and_then(|pc| pc.collect_seq()),
-        Fmt::Parquet => read_parquet_streaming::<Rec>(&p, &pattern, 1).and_then(|pc| pc.collect_par(None, Some(3))),
+        Fmt::Jsonl => read_jsonl::<R>(&p, &pattern).and_then(|pc| pc.collect_seq()),
+        Fmt::Csv | Fmt::CsvH => read_csv::<R>(&p, &pattern, fmt.hdr()).and_then(|pc| pc.collect_seq()),
+        Fmt::Parquet => read_parquet_streaming::<R>(&p, &pattern, 1).and_then(|pc| pc.collect_par(None, Some(3))),
     });
     let listed = expand_glob(&pattern).unwrap_or_default();
+    // `expand_glob_required`: the same list, or an error exactly when nothing matches
+    let required = guarded(|| expand_glob_required(&pattern));
+    let req_ok = match &required {
+        Ok(Ok(v)) => !listed.is_empty() && *v == listed,
+        Ok(Err(_)) => listed.is_empty(),
+        Err(_) => false,
+    };
     let order: Vec<String> = listed
         .iter()
         .map(|pb| {
-            let rel = pb.strip_prefix(&root).unwrap().to_string_lossy().to_string();
+            let rel = pb.strip_prefix(&root).map(|x| x.to_string_lossy().to_string()).unwrap_or_default();
             files.iter().position(|f| f.0 == rel).map_or("?".to_string(), |k| matched.iter().position(|&m| m == k).map_or("?".to_string(), |j| j.to_string()))
         })
         .collect();
@@ -720,7 +1036,7 @@ fn glob_case(cx: &mut Ctx, env: &mut Env, fmt: Fmt, names: &[(String, usize)], d
     let req = format!("GLOB {spec}");
     let (ans, fail) = match &got {
         Ok(Ok(v)) => {
-            let ids = join(v.iter().map(|r| owner_of(&files, &matched, r.id)), ",");
+            let ids = join(v.iter().map(|r| owner_of(&files, &matched, r.id())), ",");
             (format!("F{} N{} I{ids}", join(order.iter(), ","), v.len()), if same(v, &want) { None } else { Some(format!("glob read returned {} records, expected {} (first difference at {:?})", v.len(), want.len(), first_diff(v, &want))) })
         }
         Ok(Err(e)) => {
@@ -729,22 +1045,56 @@ fn glob_case(cx: &mut Ctx, env: &mut Env, fmt: Fmt, names: &[(String, usize)], d
         Err(m) => ("PANIC".to_string(), Some(m.clone())),
     };
     if matched.is_empty() {
-        // documented: a glob without matches is an error; nothing to compare with the model
+        // documented: a glob without matches is an error (modelled by `readHelper`, request RDHELPER)
         cx.count("glob:no-match");
+        if matches!(&got, Ok(Ok(_))) || !req_ok {
+            let idx = cx.case(format!("ORACLE-ONLY glob-no-match {}", fmt.name()), "-".into(), false);
+            cx.oracle_fail(idx, "glob-without-match-is-not-an-error", format!("{ans}; expand_glob_required consistent: {req_ok}"));
+        }
         let _ = std::fs::remove_dir_all(&root);
-        let _ = ans;
         return;
     }
     let idx = cx.case(req, ans, matched.len() >= 2);
     cx.count(&format!("glob:{}:{}", fmt.name(), if deep { "deep" } else { "flat" }));
+    cx.count(&format!("glob:rec={}", R::TAG));
     if let Some(d) = fail {
-        cx.oracle_fail(idx, "glob-read-differs", d);
+        // the BOM finding can only sit in the first record of a header-less file: attribute narrowly
+        let sig = match &got {
+            Ok(Ok(v)) if fmt == Fmt::Csv && bom_only_per_file(&files, &want_order, v) => "csv-headerless-first-field-leading-bom-stripped",
+            _ => "glob-read-differs",
+        };
+        cx.oracle_fail(idx, sig, d);
+    }
+    if !req_ok {
+        cx.oracle_fail(idx, "expand-glob-required-differs-from-expand-glob", format!("{:?}", required.map(|r| r.map(|v| v.len()).map_err(|e| format!("{e:#}")))));
     }
     let _ = std::fs::remove_dir_all(&root);
 }
 
+/// glob read of header-less CSV files: every per-file segment is either identical or differs only by the stripped BOM
+fn bom_only_per_file<R: RecT>(files: &[(String, Vec<R>)], order: &[usize], got: &[R]) -> bool {
+    let mut at = 0usize;
+    let mut any = false;
+    for &k in order {
+        let want = &files[k].1;
+        if at + want.len() > got.len() {
+            return false;
+        }
+        let seg = &got[at..at + want.len()];
+        at += want.len();
+        if same(seg, want) {
+            continue;
+        }
+        if !only_leading_bom_lost(Fmt::Csv, seg, want) {
+            return false;
+        }
+        any = true;
+    }
+    any && at == got.len()
+}
+
 /// index (within `matched`) of the file that owns record `id` (ids are assigned consecutively over ALL files)
-fn owner_of(files: &[(String, Vec<Rec>)], matched: &[usize], id: u64) -> String {
+fn owner_of<R: RecT>(files: &[(String, Vec<R>)], matched: &[usize], id: u64) -> String {
     let mut start = 0u64;
     for (k, f) in files.iter().enumerate() {
         let end = start + f.1.len() as u64;
@@ -756,9 +1106,11 @@ fn owner_of(files: &[(String, Vec<Rec>)], matched: &[usize], id: u64) -> String 
     "?".into()
 }
 
-fn gen_names(cx: &mut Ctx, ext: &str, deep: bool) -> Vec<(String, usize)> {
+fn gen_names(cx: &mut Ctx, env: &Env, ext: &str, deep: bool) -> Vec<(String, usize)> {
     const STEMS: &[&str] = &["a", "b", "a-b", "a.b", "a_b", "A", "B", "part-0", "part-1", "part-10", "part-2", "z", "0", "10", "9", "data", "day=01", "day=1", "é", "a+b"];
     const DIRS: &[&str] = &["a", "a-b", "sub", "year=2024", "b", "A"];
+    let fold = env.folds_names;
+    let okname = |s: &str| !fold || (s.is_ascii() && s.to_lowercase() == s);
     let n = 1 + cx.rng.below(6);
     let mut out: Vec<(String, usize)> = vec![];
     for _ in 0..n {
@@ -769,11 +1121,15 @@ fn gen_names(cx: &mut Ctx, ext: &str, deep: bool) -> Vec<(String, usize)> {
         } else {
             format!("{stem}.{e}")
         };
+        let cnt = cx.rng.below(4);
+        if !okname(&name) {
+            continue;
+        }
         // a path may not be both a file and a directory prefix of another; keep names distinct
         if out.iter().any(|(o, _)| *o == name || o.starts_with(&format!("{name}/")) || name.starts_with(&format!("{o}/"))) {
             continue;
         }
-        out.push((name, cx.rng.below(4)));
+        out.push((name, cnt));
     }
     out
 }
@@ -790,7 +1146,7 @@ fn splitr_case(cx: &mut Ctx, len: usize, parts: usize) {
 
 // ---------------------------------------------------------------- driver
 
-fn per_candidates(n: usize) -> Vec<usize> {
+pub fn per_candidates(n: usize) -> Vec<usize> {
     let mut v = vec![0, 1, 2, 3, n, n + 1, 2 * n + 5, usize::MAX];
     if n > 0 {
         v.push(n - 1);
@@ -798,44 +1154,73 @@ fn per_candidates(n: usize) -> Vec<usize> {
     v
 }
 
+/// measure the `None` shard defaults of the two parallel writers on this machine from the real code
+fn measure_auto(cx: &mut Ctx, env: &mut Env) {
+    let big: Vec<Rec> = gen_recs::<Rec>(&mut Ctx::new("C09", 0, cx.tier), 4096, true);
+    let p = env.fresh("jsonl");
+    env.take_log("");
+    // on the pinned code this call itself can panic (4096 rows, 16 shards does not, but be safe)
+    let _ = guarded(|| write_jsonl_par(&p, &big, None));
+    env.auto_jsonl = env.take_log("write_jsonl_par").len();
+    let _ = std::fs::remove_file(&p);
+    for i in 0..64 {
+        // part files of a call that panicked half-way (pinned code only)
+        let _ = std::fs::remove_file(p.with_extension(format!("jsonl.part{i}")));
+    }
+    let p = env.fresh("csv");
+    let _ = guarded(|| write_csv_par(&p, &big, None, false));
+    env.auto_csv = env.take_log("write_csv_par").len();
+    let _ = std::fs::remove_file(&p);
+}
+
+/// runs `$body` with `$R` bound to one of the four record shapes, chosen by `$k % 4`
+macro_rules! with_rec {
+    ($k:expr, $R:ident, $body:block) => {
+        match $k % 4 {
+            0 => { type $R = Rec; $body }
+            1 => { type $R = RecS; $body }
+            2 => { type $R = RecO; $body }
+            _ => { type $R = RecOnly; $body }
+        }
+    };
+}
+
 pub fn run(cx: &mut Ctx) {
     // make later `build_global` calls inside ironbeam no-ops (PCollection::write_csv_par passes its
-    // shard count as the rayon thread count)
+    // `shards` argument as the rayon THREAD count to collect_par)
     rayon::ThreadPoolBuilder::new().build_global().ok();
-    let log: Arc<Mutex<Vec<(&'static str, usize, usize, usize)>>> = Arc::new(Mutex::new(vec![]));
-    {
-        let l = Arc::clone(&log);
-        ironbeam::verif_hooks::set_shard_callback(Some(Arc::new(move |site, i, s, e| l.lock().unwrap().push((site, i, s, e)))));
-    }
-    let mut env = Env { dir: tempfile::tempdir().expect("tempdir"), k: 0, auto_jsonl: 0, auto_csv: 0, log };
-    // measure the `None` shard defaults of the two parallel writers on this machine from the real code
-    {
-        let big: Vec<Rec> = gen_recs(&mut Ctx::new("C09", 0, cx.tier), 4096);
-        let p = env.fresh("jsonl");
-        env.take_log("");
-        // on the pinned code this call itself can panic (4096 rows, 16 shards does not, but be safe)
-        let _ = guarded(|| write_jsonl_par(&p, &big, None));
-        env.auto_jsonl = env.take_log("write_jsonl_par").len();
-        let p = env.fresh("csv");
-        let _ = guarded(|| write_csv_par(&p, &big, None, false));
-        env.auto_csv = env.take_log("write_csv_par").len();
-        cx.notes.push(format!("auto shard counts measured from the real writers on 4096 rows: jsonl={} csv={}", env.auto_jsonl, env.auto_csv));
-        for e in std::fs::read_dir(env.dir.path()).unwrap().filter_map(Result::ok) {
-            let _ = std::fs::remove_file(e.path());
+    let Some(mut env) = make_env(cx) else {
+        cx.count("env:no-usable-temp-dir");
+        cx.notes.push("environment: no usable temp directory ($TMPDIR and ./work both unusable); no file case was run — this is an environment problem, not a verdict on the code".into());
+        // the pure cases still run
+        for len in 0..=24 {
+            for parts in 0..=26 {
+                splitr_case(cx, len, parts);
+            }
         }
+        return;
+    };
+    {
+        let l = Arc::clone(&env.log);
+        ironbeam::verif_hooks::set_shard_callback(Some(Arc::new(move |site, i, s, e| l.lock().unwrap_or_else(std::sync::PoisonError::into_inner).push((site, i, s, e)))));
     }
+    measure_auto(cx, &mut env);
+    cx.notes.push(format!("auto shard counts measured from the real writers on 4096 rows: jsonl={} csv={}", env.auto_jsonl, env.auto_csv));
+    cx.notes.push("the shard-boundary callback and its log are process-global: C09 runs single-threaded, one property per process".into());
 
     // (1) corpus: design witnesses (DESIGN §8 #4) and minimised past failures
-    for (n, s) in [(5usize, Some(4usize)), (17, Some(16)), (100, Some(16)), (100, None), (7, Some(5)), (3, Some(2))] {
-        let data = gen_recs(cx, n);
-        parwrite_case(cx, &mut env, Fmt::Jsonl, &data, s, false);
-        parwrite_case(cx, &mut env, Fmt::Jsonl, &data, s, true);
-        parwrite_case(cx, &mut env, Fmt::CsvH, &data, s, false);
+    for (j, (n, s)) in [(5usize, Some(4usize)), (17, Some(16)), (100, Some(16)), (100, None), (7, Some(5)), (3, Some(2))].into_iter().enumerate() {
+        with_rec!(j, R, {
+            let data = gen_recs::<R>(cx, n, true);
+            parwrite_case(cx, &mut env, Fmt::Jsonl, &data, s, false);
+            parwrite_case(cx, &mut env, Fmt::Jsonl, &data, s, true);
+            parwrite_case(cx, &mut env, Fmt::CsvH, &data, s, false);
+        });
     }
     // parallel writers under every compression extension (small n x shard counts), oracle only
     for codec in ["gz", "zst", "bz2", "xz"] {
         for (n, s) in [(0usize, Some(2usize)), (1, Some(1)), (7, Some(3)), (7, Some(1)), (9, None), (5, Some(9))] {
-            let data = gen_recs(cx, n);
+            let data = gen_recs::<Rec>(cx, n, true);
             parwrite_codec_case(cx, &mut env, Fmt::Jsonl, &data, s, codec, false);
             parwrite_codec_case(cx, &mut env, Fmt::CsvH, &data, s, codec, false);
             parwrite_codec_case(cx, &mut env, Fmt::Jsonl, &data, s, codec, true);
@@ -845,24 +1230,27 @@ pub fn run(cx: &mut Ctx) {
         // component-wise path order differs from string order here ('-' < '.' < '/')
         let e = gf.ext();
         let names: Vec<(String, usize)> = vec![(format!("a/x.{e}"), 2), (format!("a-b/x.{e}"), 1), (format!("a.{e}"), 3), (format!("a-b.{e}"), 1), (format!("a/a-b/y.{e}"), 1), (format!("a/a.{e}"), 2)];
-        glob_case(cx, &mut env, gf, &names, true);
-        glob_case(cx, &mut env, gf, &names, false);
+        glob_case::<Rec>(cx, &mut env, gf, &names, true);
+        glob_case::<RecS>(cx, &mut env, gf, &names, false);
     }
     jsonlrd_case(cx, &mut env, b"1\n\n 2\r\nx\n3", 2);
     jsonlrd_case(cx, &mut env, b"1\n\n\n2\n3\n", 2);
     jsonlrd_case(cx, &mut env, b"", 3);
     jsonlrd_case(cx, &mut env, b"\n\n", 1);
+    envc::corpus(cx, &mut env);
 
     // (2) exhaustive small scope
     // exhaustive scopes do not grow in the search tier (only the random block does)
     let thorough = cx.tier == crate::ctx::Tier::Thorough;
     let top = if thorough { 26 } else { 20 };
     for n in 0..top {
-        let data = gen_recs(cx, n);
-        for s in (0..=top + 1).map(Some).chain([None]) {
-            parwrite_case(cx, &mut env, Fmt::Jsonl, &data, s, false);
-            parwrite_case(cx, &mut env, if (n + s.unwrap_or(0)) % 2 == 0 { Fmt::CsvH } else { Fmt::Csv }, &data, s, false);
-        }
+        with_rec!(n, R, {
+            let data = gen_recs::<R>(cx, n, true);
+            for s in (0..=top + 1).map(Some).chain([None]) {
+                parwrite_case(cx, &mut env, Fmt::Jsonl, &data, s, false);
+                parwrite_case(cx, &mut env, if (n + s.unwrap_or(0)) % 2 == 0 { Fmt::CsvH } else { Fmt::Csv }, &data, s, false);
+            }
+        });
     }
     for len in 0..=top + 4 {
         for parts in 0..=top + 6 {
@@ -870,19 +1258,25 @@ pub fn run(cx: &mut Ctx) {
         }
     }
     cx.exhaustive_blocks.push(format!("SPLITR: split_ranges(len, parts) for all len in 0..={} x parts in 0..={}", top + 4, top + 6));
-    cx.exhaustive_blocks.push(format!("PARWRITE: all (rows, shards) in 0..{top} x (0..={} + None) for write_jsonl_par and write_csv_par (header flag alternating)", top + 1));
+    cx.exhaustive_blocks.push(format!("PARWRITE: all (rows, shards) in 0..{top} x (0..={} + None) for write_jsonl_par and write_csv_par (header flag alternating, record shape = rows mod 4)", top + 1));
     for n in 0..top {
-        for fmt in [Fmt::Jsonl, Fmt::Csv, Fmt::CsvH] {
-            let data = gen_recs(cx, n);
-            let path = env.fresh(fmt.ext());
-            write_seq(fmt, &path, &data).expect("write");
-            for per in 0..=top + 1 {
-                stream_case(cx, fmt, &path, &data, per, None);
-            }
-            let _ = std::fs::remove_file(&path);
+        for (fi, fmt) in [Fmt::Jsonl, Fmt::Csv, Fmt::CsvH].into_iter().enumerate() {
+            with_rec!(n + fi, R, {
+                let data = gen_recs::<R>(cx, n, fmt.is_csv());
+                let path = env.fresh(fmt.ext());
+                match guarded(|| write_seq(fmt, &path, &data)) {
+                    Ok(Ok(_)) => {
+                        for per in 0..=top + 1 {
+                            stream_case(cx, fmt, &path, &data, per, None, true);
+                        }
+                    }
+                    other => env.real_writer_failed(cx, format!("SHARDS {} {n} 0", fmt.name()), format!("{:?}", other.map(|r| r.map_err(|e| format!("{e:#}"))))),
+                }
+                let _ = std::fs::remove_file(&path);
+            });
         }
     }
-    cx.exhaustive_blocks.push(format!("SHARDS: all (rows, shard size) in 0..{top} x 0..={} for jsonl, csv, csv+header streaming sources (split, clone_any, collect_seq, collect_par)", top + 1));
+    cx.exhaustive_blocks.push(format!("SHARDS: all (rows, shard size) in 0..{top} x 0..={} for jsonl, csv, csv+header streaming sources (split, clone_any, collect_seq, collect_par; record shape rotating)", top + 1));
     // parquet: all compositions of up to 5 rows into row groups x groups_per_shard 0..=4
     let maxrows = if thorough { 7 } else { 5 };
     let mut comps: Vec<Vec<usize>> = vec![vec![]];
@@ -898,18 +1292,21 @@ pub fn run(cx: &mut Ctx) {
             comps.push(sizes);
         }
     }
-    for sizes in &comps {
+    for (ci, sizes) in comps.iter().enumerate() {
         let total: usize = sizes.iter().sum();
-        let data = gen_recs(cx, total);
-        for per in 0..=sizes.len() + 1 {
-            parquet_groups_case(cx, &mut env, &data, sizes, per);
-        }
+        with_rec!(ci, R, {
+            let data = gen_recs::<R>(cx, total, false);
+            for per in 0..=sizes.len() + 1 {
+                parquet_groups_case(cx, &mut env, &data, sizes, per);
+            }
+        });
     }
-    cx.exhaustive_blocks.push(format!("SHARDS parquet: all row-group compositions of 0..={maxrows} rows x groups_per_shard 0..=groups+1 ({} files)", comps.len()));
+    cx.exhaustive_blocks.push(format!("SHARDS parquet: all row-group compositions of 0..={maxrows} rows x groups_per_shard 0..=groups+1 ({} files, record shape rotating)", comps.len()));
+    envc::exhaustive(cx, &mut env);
 
     // (3) random block
     let rounds = cx.budget(500, 6000);
-    for _ in 0..rounds {
+    for round in 0..rounds {
         let n = match cx.rng.below(10) {
             0 => 0,
             1 => 1,
@@ -917,34 +1314,38 @@ pub fn run(cx: &mut Ctx) {
             7..=8 => 14 + cx.rng.below(40),
             _ => 60 + cx.rng.below(200),
         };
-        let data = gen_recs(cx, n);
+        let shape = cx.rng.below(4);
         let fmt = *cx.rng.pick(&[Fmt::Jsonl, Fmt::Jsonl, Fmt::Csv, Fmt::CsvH, Fmt::Parquet]);
-        let per = *cx.rng.pick(&per_candidates(n));
-        roundtrip_stream(cx, &mut env, fmt, &data, per);
-        // parallel writers
         let wf = *cx.rng.pick(&[Fmt::Jsonl, Fmt::Csv, Fmt::CsvH]);
-        let via_pc = cx.rng.chance(1, 3);
-        let mut cands = vec![None, Some(0), Some(1), Some(2), Some(3), Some(n), Some(n + 1), Some(2 * n + 3)];
-        if n > 0 { cands.push(Some(n - 1)); }
-        if !(via_pc && wf != Fmt::Jsonl) { cands.push(Some(usize::MAX)); }
-        let s = *cx.rng.pick(&cands);
-        parwrite_case(cx, &mut env, wf, &data, s, via_pc);
-        if cx.rng.chance(1, 4) {
-            let codec = *cx.rng.pick(&["gz", "zst", "bz2", "xz"]);
-            parwrite_codec_case(cx, &mut env, wf, &data, s, codec, via_pc);
-        }
-        // multi-row-group parquet
-        if cx.rng.chance(1, 3) && n > 0 {
-            let mut sizes = vec![];
-            let mut left = n;
-            while left > 0 {
-                let g = 1 + cx.rng.below(left.min(1 + n / 2));
-                sizes.push(g);
-                left -= g;
+        with_rec!(shape, R, {
+            let data = gen_recs::<R>(cx, n, true);
+            let per = *cx.rng.pick(&per_candidates(n));
+            roundtrip_stream(cx, &mut env, fmt, &data, per);
+            // parallel writers
+            let via_pc = cx.rng.chance(1, 3);
+            let mut cands = vec![None, Some(0), Some(1), Some(2), Some(3), Some(n), Some(n + 1), Some(2 * n + 3), Some(usize::MAX)];
+            if n > 0 { cands.push(Some(n - 1)); }
+            let s = *cx.rng.pick(&cands);
+            parwrite_case(cx, &mut env, wf, &data, s, via_pc);
+            if cx.rng.chance(1, 4) {
+                let codec = *cx.rng.pick(&["gz", "zst", "bz2", "xz"]);
+                parwrite_codec_case(cx, &mut env, wf, &data, s, codec, via_pc);
             }
-            let per = *cx.rng.pick(&per_candidates(sizes.len()));
-            parquet_groups_case(cx, &mut env, &data, &sizes, per);
-        }
+            // multi-row-group parquet
+            if cx.rng.chance(1, 3) && n > 0 {
+                let mut sizes = vec![];
+                let mut left = n;
+                while left > 0 {
+                    let g = 1 + cx.rng.below(left.min(1 + n / 2));
+                    sizes.push(g);
+                    left -= g;
+                }
+                let per = *cx.rng.pick(&per_candidates(sizes.len()));
+                parquet_groups_case(cx, &mut env, &data, &sizes, per);
+            }
+            // the directory around the writers, hostile files, path helpers
+            envc::random_round::<R>(cx, &mut env, round, &data);
+        });
         // byte-level JSONL with blank lines / CRLF; separate malformed stream
         let malformed = cx.rng.chance(1, 4);
         let bytes = gen_jsonl_bytes(cx, malformed);
@@ -956,9 +1357,11 @@ pub fn run(cx: &mut Ctx) {
         if cx.rng.chance(1, 2) {
             let gf = *cx.rng.pick(&[Fmt::Jsonl, Fmt::Csv, Fmt::CsvH, Fmt::Parquet]);
             let deep = cx.rng.chance(1, 2);
-            let names = gen_names(cx, gf.ext(), deep);
-            glob_case(cx, &mut env, gf, &names, deep);
+            let names = gen_names(cx, &env, gf.ext(), deep);
+            with_rec!(shape + 1, R, { glob_case::<R>(cx, &mut env, gf, &names, deep); });
         }
     }
+    // (4) sizes where the third-party batch logic lives (> 1024 rows in a shard, > 65 536 rows in a file)
+    envc::big(cx, &mut env);
     ironbeam::verif_hooks::set_shard_callback(None);
 }
